@@ -48,7 +48,7 @@ class Worker:
         if env:
             self.env.update(env)
         self.progress = os.path.join(RUNDIR, "%s-%s-%d-%d.progress" % (os.path.basename(binary), tag, os.getpid(), wid))
-        self.args = args or []
+        self.args = list(args()) if callable(args) else list(args or [])
         self.proc = None
         self.errfile = None
         self.start()
